@@ -155,6 +155,27 @@ func init() {
 	}
 }
 
+var (
+	c15FullMu    sync.Mutex
+	c15FullPaths = map[string]string{}
+)
+
+// c15FullPath: the complete file of a system on disk (written once per run).
+func c15FullPath(system, format string, data []byte) (string, error) {
+	c15FullMu.Lock()
+	defer c15FullMu.Unlock()
+	k := system + "/" + format
+	if p, ok := c15FullPaths[k]; ok {
+		return p, nil
+	}
+	p := tmpName("c15full")
+	if err := os.WriteFile(p, data, 0o644); err != nil {
+		return "", err
+	}
+	c15FullPaths[k] = p
+	return p, nil
+}
+
 // c15HangAfter: liveness deadline of one read; set by c15Body to max(90 s, 60 x the duration of reading the
 // complete real file) — a read that has not returned by then (and again with twice the deadline) hangs.
 var c15HangAfter = 10 * time.Minute
@@ -226,7 +247,22 @@ func c15Eval(cs *c15Case) (string, error) {
 		case e == nil:
 			return "UnsafeReadFrom accepts " + where, nil
 		}
-	case cs.Via == "file":
+	case cs.Via == "file" || cs.Via == "file-after-full":
+		if cs.Via == "file-after-full" {
+			// non-initial state of the process: the complete file of the same system was loaded just before
+			full, err := c15FullPath(cs.System, cs.Format, data)
+			if err != nil {
+				return "", err
+			}
+			if _, e, p := func() (ps *prover.ProvingSystem, err error, pan any) {
+				defer func() { pan = recover() }()
+				ps, err = prover.ReadSystemFromFile(full)
+				return
+			}(); e != nil || p != nil {
+				return fmt.Sprintf("ReadSystemFromFile rejects the COMPLETE %s/%s file: %v %v", cs.System, cs.Format, e, p), nil
+			}
+			where += " (after the complete file had been loaded in the same process)"
+		}
 		path := tmpName("c15")
 		if err := os.WriteFile(path, prefix, 0o644); err != nil {
 			return "", err
@@ -324,6 +360,9 @@ func c15Body(c *ev.Ctx) {
 			cases = append(cases, c15Case{"small", f, cut, "reader"})
 			if cut < 64 || cut%7 == 0 || cut > len(data)-64 {
 				cases = append(cases, c15Case{"small", f, cut, "file"})
+			}
+			if cut%16 == 5 || cut == len(data)-1 {
+				cases = append(cases, c15Case{"small", f, cut, "file-after-full"})
 			}
 		}
 	}
@@ -457,6 +496,9 @@ func c15Body(c *ev.Ctx) {
 			}
 			for _, k := range []int{0, 5, 8 + pkLen.n/2, 8 + pkLen.n + vkLen.n/2, 8 + pkLen.n + vkLen.n + (L-8-pkLen.n-vkLen.n)/2, L - 1} {
 				cases = append(cases, c15Case{sname, f, k, "file"})
+				if f == "raw" || !quick {
+					cases = append(cases, c15Case{sname, f, k, "file-after-full"})
+				}
 				if sname == "deletion" && (f == "raw" || !quick) {
 					for _, cmd := range []string{"start", "prove", "verify", "export-solidity", "convert-to-raw"} {
 						if quick && cmd == "export-solidity" && k != L-1 {
